@@ -48,6 +48,9 @@ Fixpoint expand9 (p0 p1 p2 p3 : Z) (l : list Z) : list Z :=
   match l with
   | k :: a :: b :: c :: t =>
       if Z.eqb k 9 then p0 :: p1 :: p2 :: p3 :: p0 :: p1 :: p2 :: p3 :: expand9 p0 p1 p2 p3 t
+      (* kind 11: a marker -- the two explicit copies of a block that follow it are run with many
+         unobserved runs of the block in between; the model runs just the two copies *)
+      else if Z.eqb k 11 then expand9 p0 p1 p2 p3 t
       else k :: a :: b :: c :: expand9 k a b c t
   | _ => l
   end.
@@ -1218,7 +1221,8 @@ Definition check (tag : Z) (inp obs : list Z) : verdict :=
       let due := enc_outs (poll_outs t (mk t 100))%N in
       mkV (listZ_eqb obs early) (listZ_eqb obs early || listZ_eqb obs due) early
   | 140, timeout :: h => check_140 (dec_timeout timeout) (dec_sops h) obs
-  | 150, kind :: timeout :: nch :: c1 :: c2 :: c3 :: ops =>
+  | 150, kind :: timeout :: nch :: c1 :: c2 :: c3 :: ops0 =>
+      let ops := expand9 0 248 0 0 ops0 in
       check_150 (ctor_kind kind) (ctor_timeout kind timeout) (firstn (Z.to_nat nch) [nz c1; nz c2; nz c3]) ops obs
   | 160, kind :: timeout :: nprior :: rest =>
       let '(prior, rest') := take_ops (Z.to_nat nprior) rest in
